@@ -156,7 +156,8 @@ func (k msgServer) PurchaseBeaconStateStorage(goCtx context.Context, msg *types.
 	maxParam := k.GetParamMaxStorageLimit(ctx)
 	beaconStorageAfter := beaconStorage.InStateLimit + msg.Number
 
-	if beaconStorageAfter > maxParam {
+	// the sum is computed on uint64: a wrapped-around result must be refused as well
+	if beaconStorageAfter < beaconStorage.InStateLimit || beaconStorageAfter > maxParam {
 		return nil, sdkerrors.Wrap(types.ErrExceedsMaxStorage, fmt.Sprintf("%d will exceed max storage of %d", beaconStorageAfter, maxParam))
 	}
 
